@@ -327,15 +327,15 @@ def create_dummy_in_mem_geff(
         prop_name = "var_length"
         ndim = 3
         _dtype = np.uint64
-        values_list = []
+        # Fill a 1D object array element by element: np.array(list_of_arrays, dtype=object)
+        # would build a 4D object array when there is a single node
+        values = np.empty(shape=(num_nodes,), dtype=np.object_)
         for node in range(num_nodes):
             shape = [
                 node,
             ] * ndim
-            arr = np.ones(shape=shape, dtype=_dtype) * node
-            values_list.append(arr)
+            values[node] = np.ones(shape=shape, dtype=_dtype) * node
 
-        values = np.array(values_list, dtype=np.object_)
         missing = np.zeros(shape=(num_nodes,), dtype=np.bool_)
         if num_nodes > 0:
             missing[0] = 1
